@@ -8,7 +8,7 @@ use sha3::{Digest, Keccak256 as H};
 use swiftness_pow::{config::Config, pow::verify_pow, pow::UnsentCommitment};
 use swiftness_transcript::transcript::Transcript;
 
-pub const IFF_LEN: usize = 32 + 1 + 8;
+pub const IFF_LEN: usize = 4 + 1 + 1;
 
 fn oracle(digest: &[u8; 32], n_bits: u8, nonce: u64) -> bool {
     let mut d1 = [0u8; 41];
@@ -54,7 +54,7 @@ pub fn pow_config(i: &mut Inp) -> Out {
     Out::new(check(got == (n >= 20 && n <= 50), "pow Config::validate bounds"), got)
 }
 
-pub const COMMIT_LEN: usize = 32 + 32 + 1 + 8;
+pub const COMMIT_LEN: usize = 4 + 4 + 1 + 1;
 /// commit: checks the PoW on the pre-absorb digest, then absorbs the nonce (digest' =
 /// state after read_uint64(nonce) from the pre-state), counter reset.
 pub fn pow_commit(i: &mut Inp) -> Out {
